@@ -160,7 +160,16 @@ impl Write for RecSink {
             Err(usize::MAX) => Err(io::Error::new(ErrorKind::Interrupted, "injected interrupt")),
             Err(kind) => {
                 st.fatal_delivered = true;
-                Err(io::Error::new(KINDS[kind % KINDS.len()], "injected fault"))
+                // the error's text is the sink's business too: short, very long, and long multi-byte
+                // text whose character boundaries fall on every residue (anything that shortens or
+                // re-wraps the message must cope)
+                let msg = match (kind + k) % 4 {
+                    0 => "injected fault".to_string(),
+                    1 => format!("{}{}", "a".repeat(k % 5), "容量不足".repeat(100)),
+                    2 => "x".repeat(5000),
+                    _ => format!("{}{}", "é".repeat(120 + k % 9), "😀".repeat(40)),
+                };
+                Err(io::Error::new(KINDS[kind % KINDS.len()], msg))
             }
         }
     }
